@@ -50,8 +50,14 @@ func (pass *DisjunctionWithNullToOptional) processDisjunction(visitor *Visitor, 
 		return def, nil
 	}
 
+	// `null | null`: nothing to make optional
+	nonNullTypes := disjunction.Branches.NonNullTypes()
+	if len(nonNullTypes) != 1 {
+		return def, nil
+	}
+
 	// type | null
-	finalType := disjunction.Branches.NonNullTypes()[0]
+	finalType := nonNullTypes[0]
 	finalType.Nullable = true
 	finalType.AddToPassesTrail(fmt.Sprintf("DisjunctionWithNullToOptional[%[1]s|null → %[1]s?]", ast.TypeName(finalType)))
 
